@@ -476,6 +476,20 @@ fn mode_template(cx: &mut Case, pre: &Pre, espec: &EnvSpec, env: &ElementsTxEnv)
         }
         None => root,
     };
+    // Dirty memory: `comp (comp ONES unit) P` first fills a frame of 64..512 cells with ones and
+    // releases it, so that the frames of P re-use cells that are not zero (an evaluator, or a
+    // jet's output routine, that relies on fresh cells being zero then computes something else).
+    let root = if st.chance(120) {
+        cx.label("frames re-use memory filled with ones");
+        let n = 6 + st.below(4);
+        let ones = b.push(Ir::Word(n.min(8), vec![true; 1 << n.min(8)]));
+        let ones = if n > 8 { b.push(Ir::Pair(ones, ones)) } else { ones };
+        let u = b.push(Ir::Unit);
+        let pro = b.push(Ir::Comp(ones, u));
+        b.push(Ir::Comp(pro, root))
+    } else {
+        root
+    };
     cx.src = src;
     let prog = Prog { nodes: b.nodes, root, family: Family::Elements };
     let redeem = build_redeem(&prog, true, &witnesses).map_err(|e| harness_error(format!("template program of {}: {:?}; {}", describe_arg(), e, prog.render())))?;
@@ -651,6 +665,114 @@ fn mode_delegation(cx: &mut Case, pre: &Pre, espec: &EnvSpec, env: &ElementsTxEn
     Ok(())
 }
 
+/// One shared case node executed twice on one frame (`pair (take c) (drop c)` over X x X with
+/// X = (A + B) x C, |A| != |B|), first to the right and then to the left (or as drawn), followed
+/// by another read of the same frame whose outcome decides the verdict (the first X is compared
+/// with a constant).  An evaluator that restores the read cursor after a case by the wrong
+/// padding, or remembers the side of an earlier execution of the node, reads shifted bits.
+fn mode_case_twice(cx: &mut Case, pre: &Pre, espec: &EnvSpec, env: &ElementsTxEnv) -> CaseResult {
+    cx.label("mode: shared case executed twice, frame read again");
+    let mut st = Src::new(&pre.style);
+    let use_verify = st.chance(110);
+    let mutate = st.chance(70);
+    let mut hidden = [0u8; 32];
+    for b in hidden.iter_mut() {
+        *b = st.u8();
+    }
+    let palette = |s: &mut Src| -> Arc<RTy> {
+        match s.below(7) {
+            0 => RTy::unit(),
+            1 => RTy::two(),
+            2 => RTy::word(1),
+            3 => RTy::word(3),
+            4 => RTy::prod(RTy::two(), RTy::word(2)),
+            5 => RTy::sum(RTy::unit(), RTy::word(2)),
+            _ => RTy::word(4),
+        }
+    };
+    let mut a = palette(&mut st);
+    let bt = palette(&mut st);
+    if a.width == bt.width {
+        a = RTy::prod(a, RTy::two());
+    }
+    let c = palette(&mut st);
+    let x = RTy::prod(RTy::sum(a.clone(), bt.clone()), c.clone());
+    let mut src = cx.src.clone();
+    let side = |right: bool, src: &mut Src| -> RVal {
+        let tag = if right { RVal::r(gen_val(src, &bt)) } else { RVal::l(gen_val(src, &a)) };
+        RVal::pair(tag, gen_val(src, &c))
+    };
+    let order = st.below(4); // 0,1: right then left; 2: left then right; 3: drawn
+    let (r1, r2) = match order {
+        0 | 1 => (true, false),
+        2 => (false, true),
+        _ => (st.bool(), st.bool()),
+    };
+    let x1 = side(r1, &mut src);
+    let x2 = side(r2, &mut src);
+    cx.label_if(r1 && !r2, "case taken right, then left");
+    let xx = RTy::prod(x.clone(), x.clone());
+    let wv = RVal::pair(x1.clone(), x2.clone());
+    let mut expected = x1.clone();
+    if mutate {
+        let mut bits = compact_bits(&x, &x1);
+        if !bits.is_empty() {
+            let i = st.below(bits.len());
+            bits[i] = !bits[i];
+            if let Some((m, used)) = parse_compact(&x, &bits) {
+                if used == bits.len() && m != x1 {
+                    expected = m;
+                }
+            }
+        }
+    }
+    let differs = expected != x1;
+    let mut b = B { nodes: vec![], eq_memo: vec![] };
+    let mut witnesses: HashMap<Id, Value> = HashMap::new();
+    let w = b.push(Ir::Witness);
+    witnesses.insert(w, value_of(&xx, &wv));
+    let l = b.push(Ir::Unit);
+    let r = b.push(Ir::Unit);
+    let cn = b.push(Ir::Case(l, r));
+    let tk = b.push(Ir::Take(cn));
+    let dr = b.push(Ir::Drop(cn));
+    let both = b.push(Ir::Pair(tk, dr));
+    let i = b.push(Ir::Iden);
+    let first = b.push(Ir::Take(i));
+    let u0 = b.push(Ir::Unit);
+    let k = b.constant(&mut src, &x, &expected);
+    let kc = b.push(Ir::Comp(u0, k));
+    let p = b.push(Ir::Pair(first, kc));
+    let e = b.eq(&x);
+    let tested = b.push(Ir::Comp(p, e));
+    let (check, fail_kind) = if use_verify {
+        let vj = b.push(Ir::Jet(JetRef::Elements(Elements::Verify)));
+        (b.push(Ir::Comp(tested, vj)), Verdict::JetFailure)
+    } else {
+        let u1 = b.push(Ir::Unit);
+        let pp = b.push(Ir::Pair(tested, u1));
+        let u2 = b.push(Ir::Unit);
+        let asr = b.push(Ir::AssertR(hidden, u2));
+        (b.push(Ir::Comp(pp, asr)), Verdict::Assertion)
+    };
+    let body = b.push(Ir::Pair(both, check));
+    let run = b.push(Ir::Comp(w, body));
+    let un = b.push(Ir::Unit);
+    let root = b.push(Ir::Comp(run, un));
+    cx.src = src;
+    let prog = Prog { nodes: b.nodes, root, family: Family::Elements };
+    let redeem = build_redeem(&prog, true, &witnesses).map_err(|e| harness_error(format!("case-twice program: {:?}; {}", e, prog.render())))?;
+    let predicted = if differs { fail_kind } else { Verdict::Success };
+    cx.set_sample(|| json!({"mode": "case twice", "X": x.show_short(), "witness": wv.show_short(&xx), "predicted": format!("{:?}", predicted), "program": prog.render()}));
+    let describe = || format!("case-twice template over X = {} with witness {} (predicted {:?}); program {}", x.show_short(), wv.show_short(&xx), predicted, prog.render());
+    let rust = compare(cx, &redeem, env, espec, &describe)?;
+    if !matches!(rust, Verdict::Outside(_)) && rust != predicted {
+        return Err(format!("the Rust machine reads the frame differently after a shared case node ran twice: predicted {:?}, got {:?}; {}", predicted, rust, describe()));
+    }
+    cx.nontrivial = cx.labels.iter().any(|l| *l == "verdicts compared");
+    Ok(())
+}
+
 pub fn case(cx: &mut Case) -> CaseResult {
     let template = cx.src.weighted(&[3, 7]) == 1;
     let n_jets = JETS.with(|j| j.len());
@@ -662,6 +784,8 @@ pub fn case(cx: &mut Case) -> CaseResult {
     cx.label_if(!espec.tx.output.is_empty(), "env: has outputs");
     if template && pre.style[319] < 26 {
         mode_delegation(cx, &pre, &espec, &env)
+    } else if template && pre.style[318] < 24 {
+        mode_case_twice(cx, &pre, &espec, &env)
     } else if template {
         mode_template(cx, &pre, &espec, &env)
     } else {
